@@ -31,7 +31,7 @@ type C13Scenario struct {
 
 var c13Kinds = []string{
 	bhCorrect, bhCorrect, bhCorrect, bhOtherHeader, bhWrongChain, bhBadValidate, bhGarbage, bhUnknownCode, bhInvalidCode,
-	bhNotFound, bhEmpty, bhTruncated, bhOversized, bhSeveral, bhHang, bhReset, bhRawGarbage, bhNilBodyOK, bhForged, bhCaseChain, bhNoChain, bhChainPrefix,
+	bhNotFound, bhEmpty, bhTruncated, bhOversized, bhSeveral, bhHang, bhReset, bhRawGarbage, bhNilBodyOK, bhForged, bhCaseChain, bhNoChain, bhChainPrefix, bhUnknownBody,
 }
 
 var c13Delays = []int{0, 1, 50, 500, 1900, 1999, 2001, 2100, 5000}
